@@ -95,6 +95,6 @@ Theorem C02_nonvacuous :
   s_ev (snd (negotiate_impl Debug false true cfg_nla_check (ex_cc_ssl :: ex_rest) ex_rest)) = [RawWrite (CR 3 0); TlsStart false] /\
   s_ev (snd (negotiate_impl Debug true true cfg_nla_check (ex_cc_hybrid :: ex_rest) ex_rest)) = [RawWrite (CR 3 0); TlsStart true; TlsWrite CSSP] /\
   (exists r, fst (negotiate_impl Debug true true cfg_plain_rdp (ex_cc :: ex_rest) ex_rest) = Ok r) /\
-  In (RawWrite (INFO 3 1003 38)) (s_ev (snd (negotiate_impl Debug true true cfg_plain_rdp (ex_cc :: ex_rest) ex_rest))).
+  In (RawWrite (INFO 3 1003 228)) (s_ev (snd (negotiate_impl Debug true true cfg_plain_rdp (ex_cc :: ex_rest) ex_rest))).
 Proof. exact ex_negotiations. Qed.
 Print Assumptions C02_nonvacuous.
